@@ -827,4 +827,140 @@ def readVFaces (texinfo planes surfedges : List Nat) : List (List Val) → Excep
       | .error e => .error e
       | .ok fs => .ok (f :: fs)
 
+
+/-! ## brush models + PHYSCOLLIDE (`_lmp_write_bmodels` / `_lmp_read_bmodels`)
+
+The `model` key that entities borrow (`'*N'`) is C10's; here the entity side is just the list of the
+brush-model objects of the non-world entities in dict order, mapped to indices into the model list. -/
+
+structure BModelV where
+  /-- mins, maxes, origin: 9 float bit patterns -/
+  floats : List UInt32
+  node : Nat
+  faces : List Nat
+  /-- `phys_keyvalues.serialise().encode('ascii')` (text, not modelled further), `none` = no keyvalues -/
+  kv : Option Bytes
+  solids : List Bytes
+deriving Repr, DecidableEq
+
+/-- `struct.pack('<i', v)` -/
+def pi32 (v : Int) : Except LumpErr Bytes := (packInt 4 true v).mapError (fun _ => LumpErr.range)
+
+/-- one section of the PHYSCOLLIDE lump as the reader returns it -/
+structure PhysEntry where
+  model : Nat
+  solids : List Bytes
+  /-- the text section without its terminating NULs -/
+  kv : Bytes
+deriving Repr, DecidableEq
+
+def solidsBytes : List Bytes → Except LumpErr Bytes
+  | [] => .ok []
+  | s :: ss => (pi32 s.length).bind fun l => (solidsBytes ss).map fun r => l ++ s ++ r
+
+def solidsSize : List Bytes → Nat
+  | [] => 0
+  | s :: ss => s.length + 4 + solidsSize ss
+
+/-- the section written for model `i` (nothing when it has neither keyvalues nor solids) -/
+def physSection (i : Nat) (m : BModelV) : Except LumpErr Bytes :=
+  if m.kv = none ∧ m.solids = [] then .ok []
+  else
+    let kvs : Bytes := (m.kv.getD []) ++ [0]
+    (pi32 i).bind fun a => (pi32 (solidsSize m.solids)).bind fun b => (pi32 kvs.length).bind fun c =>
+      (pi32 m.solids.length).bind fun d => (solidsBytes m.solids).map fun ss => a ++ b ++ c ++ d ++ ss ++ kvs
+
+def physSections (md : Nat → BModelV) : Nat → List Nat → Except LumpErr Bytes
+  | _, [] => .ok []
+  | i, m :: ms => (physSection i (md m)).bind fun a => (physSections md (i + 1) ms).map fun r => a ++ r
+
+def physSentinel : Except LumpErr Bytes :=
+  (pi32 (-1)).bind fun a => (pi32 0).map fun z => a ++ z ++ z ++ z
+
+structure BModelSt where
+  fNode : IdFinder
+  eFaces : IdEFinder
+
+def writeBModelRecs (bounded : Bool) (md : Nat → BModelV) : BModelSt → List Nat → List (List Val) × BModelSt
+  | s, [] => ([], s)
+  | s, m :: ms =>
+    let rn := s.fNode.call idKey (md m).node
+    let rf := s.eFaces.call bounded idKey (md m).faces
+    let t := writeBModelRecs bounded md ⟨rn.2, rf.2⟩ ms
+    (((md m).floats.map Val.f32 ++ [.int rn.1, .int rf.1, .int (md m).faces.length]) :: t.1, t.2)
+
+/-- `_lmp_write_bmodels`: (index of each brush entity's model, model records, PHYSCOLLIDE bytes,
+model list, node table, face table) -/
+def writeBModels (bounded : Bool) (md : Nat → BModelV) (nodes faces : List Nat) (world : Nat) (entModels : List Nat) :
+    Except LumpErr (List Nat × List (List Val) × Bytes × List Nat × List Nat × List Nat) :=
+  let rm := Finder.callAll idKey (Finder.mk' idKey [world]) entModels
+  let rr := writeBModelRecs bounded md ⟨Finder.mk' idKey nodes, EFinder.mk' idKey faces⟩ rm.2.list
+  (physSections md 0 rm.2.list).bind fun ph => physSentinel.map fun se =>
+    (rm.1, rr.1, ph ++ se, rm.2.list, rr.2.fNode.list, rr.2.eFaces.list)
+
+/-- `[phys_buf.read(struct_read('<i')[0]) for _ in range(solid_count)]` -/
+def readSolids : Nat → Bytes → Except LumpErr (List Bytes × Bytes)
+  | 0, b => .ok ([], b)
+  | n + 1, b =>
+    if (b.take 4).length < 4 then .error .badData
+    else
+      let len := (unpackInt 4 true (b.take 4)).toNat
+      match readSolids n ((b.drop 4).drop len) with
+      | .error e => .error e
+      | .ok (ss, rest) => .ok (((b.drop 4).take len) :: ss, rest)
+
+/-- the `while True` loop over the PHYSCOLLIDE lump (fuel = an upper bound on the number of sections) -/
+def readPhys : Nat → Bytes → Except LumpErr (List PhysEntry)
+  | 0, _ => .error .badData
+  | fuel + 1, b =>
+    if (b.take 16).length < 16 then .error .badData
+    else
+      let mdl := unpackInt 4 true (b.take 4)
+      let kvSize := (unpackInt 4 true ((b.drop 8).take 4)).toNat
+      let count := (unpackInt 4 true ((b.drop 12).take 4)).toNat
+      if mdl = -1 then .ok []
+      else if mdl < 0 then .error .badData
+      else
+        match readSolids count (b.drop 16) with
+        | .error e => .error e
+        | .ok (ss, rest) =>
+          match readPhys fuel (rest.drop kvSize) with
+          | .error e => .error e
+          | .ok es => .ok ({ model := mdl.toNat, solids := ss, kv := rstrip0 (rest.take kvSize) } :: es)
+
+/-- attach the physics sections to the models (`Two physics definitions` is an error) -/
+def applyPhys : List PhysEntry → List BModelV → Except LumpErr (List BModelV)
+  | [], ms => .ok ms
+  | e :: es, ms =>
+    match ms[e.model]? with
+    | none => .error .badData
+    | some m =>
+      if m.solids ≠ [] ∨ m.kv ≠ none then .error .badData
+      else applyPhys es (ms.set e.model { m with solids := e.solids, kv := some e.kv })
+
+def readBModelRec (nodes faces : List Nat) (r : List Val) : Except LumpErr BModelV :=
+  match f32sOf (r.take 9), r.drop 9 with
+  | some fl, [.int hn, .int ff, .int nf] =>
+    match pyIdx nodes hn with
+    | some n => .ok { floats := fl, node := n, faces := pySlice faces ff.toNat nf.toNat, kv := none, solids := [] }
+    | none => .error .badData
+  | _, _ => .error .badData
+
+def readBModelRecs (nodes faces : List Nat) : List (List Val) → Except LumpErr (List BModelV)
+  | [] => .ok []
+  | r :: rs =>
+    match readBModelRec nodes faces r with
+    | .error e => .error e
+    | .ok m =>
+      match readBModelRecs nodes faces rs with
+      | .error e => .error e
+      | .ok ms => .ok (m :: ms)
+
+/-- `_lmp_read_bmodels` without the entity part: the models in lump order -/
+def readBModels (fuel : Nat) (nodes faces : List Nat) (recs : List (List Val)) (phys : Bytes) : Except LumpErr (List BModelV) :=
+  match readBModelRecs nodes faces recs, readPhys fuel phys with
+  | .ok ms, .ok es => applyPhys es ms
+  | .error e, _ => .error e
+  | _, .error e => .error e
+
 end C11
